@@ -40,6 +40,7 @@ def build(tc):
     Fn = np.full((R, C), np.nan)
     Xi = np.full((R, C), np.nan)
     Phi = np.full((R, C, nch), np.nan, dtype=complex)
+    mid = np.full((R, C), -2, dtype=int)  # -2 empty, -1 spurious, k physical mode k
     nm = tc["nmodes"]
     fs = tc["fscale"]
     if tc["cluster"] and nm >= 2:
@@ -59,14 +60,17 @@ def build(tc):
             p = p0[k] + tc["pert"] * 3 * (rng.normal(size=nch) + (1j * rng.normal(size=nch) if tc["complex"] else 0))
             r = slots.pop()
             Fn[r, c], Xi[r, c], Phi[r, c] = f, abs(x) + 1e-4, p
+            mid[r, c] = k
             if tc["dup"] and slots:
                 r2 = slots.pop()
                 Fn[r2, c], Xi[r2, c], Phi[r2, c] = f, abs(x) + 1e-4, np.conj(p)
+                mid[r2, c] = k
         # spurious poles in the remaining slots
         for r in slots:
             if rng.random() < tc["pnan"]:
                 continue
             Fn[r, c] = rng.uniform(0.3, 22) * fs
+            mid[r, c] = -1
             Xi[r, c] = rng.uniform(0.001, 0.2)
             Phi[r, c] = rng.normal(size=nch) + (1j * rng.normal(size=nch) if tc["complex"] else 0)
     if tc["empty_col"] and C >= 3:
@@ -74,6 +78,7 @@ def build(tc):
         Fn[:, c] = np.nan
         Xi[:, c] = np.nan
         Phi[:, c, :] = np.nan
+        mid[:, c] = -2
     # unity normalisation like the library's tables
     for r in range(R):
         for c in range(C):
@@ -82,7 +87,7 @@ def build(tc):
                 k = int(np.argmax(np.abs(v)))
                 if abs(v[k]) > 0:
                     Phi[r, c] = v / v[k]
-    out = {"Fn": Fn, "Xi": Xi, "Phi": Phi, "Fn_cov": None, "Xi_cov": None, "Phi_cov": None, "f0": f0, "x0": x0, "p0": p0}
+    out = {"Fn": Fn, "Xi": Xi, "Phi": Phi, "Fn_cov": None, "Xi_cov": None, "Phi_cov": None, "f0": f0, "x0": x0, "p0": p0, "mode_id": mid, "rng": rng}
     if tc.get("cov"):
         m = np.isfinite(Fn)
         out["Fn_cov"] = np.where(m, rng.uniform(1e-6, 1e-2, size=(R, C)), np.nan)
